@@ -203,7 +203,7 @@ check('C07',
       '__array_ufunc__ branches: two_sum is error-free for all finite doubles below 2^1000; the floor built from + - compare is the '
       'mathematical floor of every finite double; construction from one or two (also unnormalised) doubles with |sum| <= 2^52 gives an '
       'integer-valued count plus fraction within 2^-53 of the exact sum; Phase + Phase and Phase - Phase are within 2^-52 of the exact '
-      'result for counts up to 2^51 - 1, negation within 2^-53, results normalised to |frac| <= 1/2 EXACTLY (the closing fold of day_frac, Proofs/FoldHalf.v: both updates exact, value unchanged); the add / subtract / negate '
+      'result for operand counts up to 2^52 and a result count up to 2^52 - 2 (C07_add_full, C07_sub_full), negation within 2^-53, results normalised to |frac| <= 1/2 EXACTLY (the closing fold of day_frac, Proofs/FoldHalf.v: both updates exact, value unchanged); the add / subtract / negate '
       'branches of the model reduce to exactly these functions; the imaginary-flag and sign rules of from_angles are complex '
       'multiplication and division (i*i = -1); astropy two_product (Veltkamp split + Dekker) is error-free without underflow; Phase * number is within 2^-52 of '
       'the exact product for |product| <= 2^52 - 2; Phase / number (quotient, exact residual, correction quotient) within 2^-52 for |quotient| <= 2^47 and '
